@@ -259,36 +259,29 @@ mod numeric_formatting {
         integer_fmt: &[char],
         unformatted_str: &str,
     ) -> Result<String, RuntimeError> {
-        let mut result: String = String::new();
-        let unformatted: Vec<char> = unformatted_str.chars().collect();
-        // start with the rightmost digit
-        let mut i: usize = integer_fmt.len();
-        let mut j: usize = unformatted.len();
-        while i > 0 || j > 0 {
-            if i > 0 {
-                match integer_fmt[i - 1] {
-                    ',' => {
-                        result.insert(0, if j > 0 { ',' } else { ' ' });
-                    }
-                    '#' => {
-                        if j > 0 {
-                            result.insert(0, unformatted[j - 1]);
-                            j -= 1;
-                        } else {
-                            result.insert(0, ' ');
-                        }
-                    }
-                    _ => {
-                        // unsupported formatting character
-                        return Err(RuntimeError::IllegalFunctionCall);
-                    }
-                }
-                i -= 1;
-            } else {
-                // we run out formatting characters but we still have digits to print
-                result.insert(0, unformatted[j - 1]);
-                j -= 1;
+        if integer_fmt.iter().any(|ch| *ch != '#' && *ch != ',') {
+            // unsupported formatting character
+            return Err(RuntimeError::IllegalFunctionCall);
+        }
+        // a comma anywhere in the integer part asks for a thousands separator,
+        // which goes between every third digit counting from the right
+        // (and never next to the sign)
+        let has_comma = integer_fmt.contains(&',');
+        let (sign, digits) = match unformatted_str.strip_prefix('-') {
+            Some(digits) => ("-", digits),
+            None => ("", unformatted_str),
+        };
+        let mut result: String = String::from(sign);
+        let digit_count = digits.chars().count();
+        for (i, digit) in digits.chars().enumerate() {
+            if has_comma && i > 0 && (digit_count - i) % 3 == 0 {
+                result.push(',');
             }
+            result.push(digit);
+        }
+        // align to the right within the width of the field
+        while result.chars().count() < integer_fmt.len() {
+            result.insert(0, ' ');
         }
         Ok(result)
     }
